@@ -30,8 +30,9 @@ ASSUMPTIONS = [
 MIN = {
     "quick": {"structures_equal": 60, "majors_equal": 150, "minor_scores_equal": 120, "minor_solutions_equal": 120,
               "end_to_end_equal": 20, "each_build_correct": 40, "vcf_builds_equal": 10},
-    "thorough": {"structures_equal": 2000, "majors_equal": 5000, "minor_scores_equal": 4000,
-                 "minor_solutions_equal": 4000, "end_to_end_equal": 600},
+    "thorough": {"structures_equal": 1500, "majors_equal": 3500, "minor_scores_equal": 3000,
+                 "minor_solutions_equal": 3000, "end_to_end_equal": 250, "each_build_correct": 500,
+                 "vcf_builds_equal": 200},
 }
 CASE_TIMEOUT = {"quick": 900, "thorough": 3000}
 SHIPPED = ["cyp2c19", "tpmt", "nudt15", "cyp2a6", "cyp2c9", "cyp3a5", "cyp2d6", "slco1b1", "ugt1a1", "cyp2b6"]
@@ -89,6 +90,22 @@ def canon_major(g, sols):
 def canon_minor_solution(g, s):
     return tuple(sorted((a.major, a.minor, tuple(sorted(refseq_of(g, m) for m in a.added)),
                          tuple(sorted(refseq_of(g, m) for m in a.missing))) for a in s.solution))
+
+
+def expanded_solutions(g, sols):
+    """Major alleles and the multiset of all carried variants (RefSeq notation) per solution: two solutions that
+    agree here distribute the same variants differently over the copies of the same major alleles.
+    sols: [tuple of (major, minor, added RefSeq, missing RefSeq)]"""
+    out = []
+    for sol in sols:
+        vs = collections.Counter()
+        for (ma, mi, added, missing) in sol:
+            own = collections.Counter(g.get_refseq(m) for m in tables.allele_variants(g, ma, mi))
+            own.update(added)
+            own.subtract(missing)
+            vs.update({k: v for k, v in own.items() if v > 0})
+        out.append((tuple(sorted(a[0] for a in sol)), tuple(sorted(vs.elements()))))
+    return out
 
 
 def _two_builds(rng):
@@ -295,7 +312,13 @@ def _e2e_case(res, case):
         return sorted((tuple(sorted((a[0], a[1]) for a in sol)), tuple(sorted(v for a in sol for v in a[2])),
                        tuple(sorted(v for a in sol for v in a[3])), cn) for sol, cn in o)
 
-    if outs[0] != outs[1] and coarse(outs[0]) == coarse(outs[1]):
+    def _exp(db, o):
+        if o is None:
+            return None
+        return sorted(zip(expanded_solutions(db.gene, [sol for sol, cn in o]), [cn for sol, cn in o]))
+
+    if outs[0] != outs[1] and (coarse(outs[0]) == coarse(outs[1])
+                               or _exp(dba, outs[0]) == _exp(dbb, outs[1])):
         mech = "solver-tie-between-equivalent-assignments"  # same alleles and variants, other copy carries them
     elif outs[0] != outs[1] and not unexplained and (
             any(sub.disc for sub in subs)
@@ -363,8 +386,12 @@ def _vcf_case(res, case):
             return None
         except Exception as e:
             outs.append("error: " + repr(e)[:100])
+    mech = None
+    if outs[0] != outs[1] and not isinstance(outs[0], str) and not isinstance(outs[1], str) and \
+            sorted(expanded_solutions(dba.gene, outs[0])) == sorted(expanded_solutions(dbb.gene, outs[1])):
+        mech = "solver-tie-between-equivalent-assignments"  # same variants, distributed differently over the copies
     res.check("vcf_builds_equal", outs[0] == outs[1],
-              "the same sample written as a VCF against the two builds is genotyped differently",
+              "the same sample written as a VCF against the two builds is genotyped differently", mech=mech,
               first=str(outs[0])[:400], second=str(outs[1])[:400], **desc)
     return desc
 
